@@ -24,6 +24,7 @@ from collections import defaultdict
 from unittest import mock
 
 from . import coqlit as L
+from . import c20race
 from .core import Prop, rp_import
 
 NKEYS = 6
@@ -242,16 +243,19 @@ class C20(Prop):
     module = 'c20'
     title = 'Raptor workers and masters account for every request'
     props_files = ['Props/C20.v']
-    extra_targets = ['Raptor/Oracle.vo']
-    model_targets = ['Raptor/Oracle.vo']
+    extra_targets = ['Raptor/Oracle.vo', 'Raptor/RaceOracle.vo']
+    model_targets = ['Raptor/Oracle.vo', 'Raptor/RaceOracle.vo']
     translators = []
-    header = 'From RP Require Import Raptor.Model Raptor.Oracle.'
+    header = 'From RP Require Import Raptor.Model Raptor.Oracle Raptor.Race Raptor.RaceOracle.'
     clauses = ['disjoint', 'accounting', 'quiescent_free', 'each_once', 'target_state', 'routing',
                'forwarding', 'truthful', 'env_python', 'env_process', 'stdio']
     corr_name = ('Raptor.Model (wrun/master_result/master_request/submit_tasks/drun/srun) vs DefaultWorker._request_cb/'
                  '_result_cb/_alloc/_dealloc, Master._result_cb/_request_cb/_submit_tasks, Worker._dispatch_*, '
                  'AgentSchedulingComponent._schedule_incoming/control_cb')
-    rule = ('corpus, then the 16 ways a payload process can end under the real DefaultWorker._dispatch (return, raise, '
+    rule = ('corpus, then schedules of the dispatcher/task-process protocol of the real DefaultWorker._dispatch (the task '
+            'process makes j steps, the timeout expires, the dispatcher makes k steps, the task process makes m steps, for all '
+            'j,k,m and every payload ending; random schedules; thorough: every sequence of <= 8 choices), each followed by the real '
+            '_result_watcher on the queued results and a later request; then the 16 ways a payload process can end under the real DefaultWorker._dispatch (return, raise, '
             'sys.exit/os._exit with code 0/3, SIGKILL, time-out; exec and eval), then seed-determined streams: worker request/completion streams (batches of requests with core/GPU '
             'demands mostly within the worker size, completions/failures/time-outs in arbitrary order, failing process '
             'starts, stale results, completions arriving while a request waits for resources; every result piped through '
@@ -261,7 +265,8 @@ class C20(Prop):
             'scheduler histories of incoming/register/unregister/cancel; thorough adds exhaustive request/completion '
             'orders on a 3-core x 2-GPU worker.  non-trivial = worker stream with >= 2 requests running at once, '
             'dispatch sequence with >= 2 requests one of which edits the environment, master batch with both DONE and '
-            'FAILED outcomes or both routes, scheduler history with a forward and a backlog event')
+            'FAILED outcomes or both routes, scheduler history with a forward and a backlog event, protocol schedule in which '
+            'both parties move after the timeout expired')
     trusted = [
         'correspondence harness harness/c20.py: real DefaultWorker/Master/Worker/AgentSchedulingComponent methods on '
         'objects built without __init__; mp.Process replaced by a recorder whose start() can fail, the result watcher '
@@ -269,6 +274,8 @@ class C20(Prop):
         'inside Coq by vm_compute with the model',
         'process-level environment observed with libc getenv (ctypes) in the worker process',
         'DefaultWorker._dispatch is run for real in a forked process (mp.Process, mp.Queue) on 16 payload endings',
+        'harness/c20race.py: the real _dispatch/_worker_proc on fake Lock/Event/Process/queue objects that park before every '
+        'synchronisation operation (one model step each) under a step scheduler; atomicity of the real mp primitives trusted',
         'modelled, not verified: the time-out race of _dispatch (duplicate report), result queue transport between '
         'processes, MPI worker, heartbeats/registration, profiling/logging, sandbox creation',
     ]
@@ -392,6 +399,8 @@ class C20(Prop):
     def cases(self, rng, tier):
         quick = tier == 'quick'
         for c in self.gen_procend():
+            yield c
+        for c in c20race.gen_cases(rng, tier):
             yield c
         for _ in range(400 if quick else 8000):
             yield self.gen_worker(rng, big=not quick)
@@ -731,6 +740,9 @@ class C20(Prop):
         return {'per_req': out}
 
     # .......................................................... process wrapper
+    def impl_race(self, case):
+        return c20race.impl_race(case)
+
     def impl_procend(self, case):
         import multiprocessing as mp
         import radical.pilot.raptor.worker_default as wd
@@ -900,6 +912,8 @@ class C20(Prop):
 
     def coq_row(self, case, obs):
         k = case['kind']
+        if k == 'race':
+            return c20race.coq_row(case, obs)
         if k == 'procend':
             return '(c20_procend_row %s %s)' % (self._pend(case), L.lst(
                 ['(%s, %s)' % (L.Z(r), L.boolean(x)) for r, x in obs['results']]))
@@ -932,6 +946,8 @@ class C20(Prop):
 
     def model_show(self, case):
         k = case['kind']
+        if k == 'race':
+            return c20race.model_show(case)
         if k == 'procend':
             return 'proc_results %s' % self._pend(case)
         if k == 'worker':
@@ -954,6 +970,10 @@ class C20(Prop):
     # ------------------------------------------------------------------ misc
     def nontrivial(self, case, obs):
         k = case['kind']
+        if k == 'race':
+            # the two parties really interleave after the timeout expired
+            ps = [e[0] for e in obs['trace']]
+            return 'X' in ps and 'T' in ps[ps.index('X'):] and 'D' in ps[ps.index('X'):]
         if k == 'procend':
             return case['end'][0] != 'return'
         if k == 'worker':
@@ -976,7 +996,7 @@ class C20(Prop):
         kinds = set(e[0] for e in obs['evs'])
         return 'put' in kinds and (bool(obs['backlog']) or 'fail' in kinds or 'cancel' in kinds)
 
-    SITE = dict(procend='DefaultWorker._dispatch', worker='DefaultWorker._request_cb/_result_cb', mresult='Master._result_cb',
+    SITE = dict(race='DefaultWorker._dispatch/_result_watcher', procend='DefaultWorker._dispatch', worker='DefaultWorker._request_cb/_result_cb', mresult='Master._result_cb',
                 mrequest='Master._request_cb', msubmit='Master._submit_tasks', dispatch='Worker._dispatch',
                 sched='AgentSchedulingComponent._schedule_incoming/control_cb')
 
@@ -987,12 +1007,19 @@ class C20(Prop):
             oob = any(not (1 <= (c if c is not None else 1) <= case['nc'] and 0 <= (g or 0) <= case['ng'])
                       for o in case['ops'] if o[0] == 'req' for _, c, g, _sf in o[1])
             cond = ':demand-beyond-worker' if oob else ':demand-within-worker'
+        if k == 'race':
+            n = len(obs['queue'])
+            cond = ':%s' % ('no-result' if n == 0 else 'one-result' if n == 1 else 'reported-%d-times' % n)
         if k == 'procend':
             cond = ':process-ended-without-result' if not obs['results'] else ':' + case['end'][0]
         return '%s:%s%s' % (clause, self.SITE[k], cond)
 
     def shrink(self, case):
         k = case['kind']
+        if k == 'race':
+            for c in c20race.shrink(case):
+                yield c
+            return
         if k in ('worker', 'sched'):
             ops = case['ops']
             for i in range(len(ops)):
